@@ -24,6 +24,7 @@ import (
 	"context"
 	"fmt"
 	"math/rand"
+	"net"
 	"strings"
 	"sync"
 	"testing"
@@ -158,7 +159,11 @@ func ptrOnce(d *dns64.DNS64, name string) (string, *dns.Msg) {
 }
 
 func (r *layRun) violate(pred string, c layCase, what string) {
-	r.res.Violate(fmt.Sprintf("layout/%s/%d", pred, c.Plen),
+	r.violateKey(fmt.Sprintf("layout/%s/%d", pred, c.Plen), pred, c, what)
+}
+
+func (r *layRun) violateKey(key, pred string, c layCase, what string) {
+	r.res.Violate(key,
 		fmt.Sprintf("DNS64 layout %s: prefix %s, IPv4 %v: %s", pred, cidrOf(bytesOf(c.Pfx), c.Plen), c.Addr, what),
 		map[string]any{"driver": "layout", "case": c})
 }
@@ -268,7 +273,13 @@ func (r *layRun) runCase(c layCase) {
 	target, prep := ptrOnce(d, arpaName(wire))
 	if clean {
 		if target != inAddrName(v4) {
-			r.violate("PtrBack", c, fmt.Sprintf("PTR %s did not map back to %s (CNAME target %q):\n%s", arpaName(wire), inAddrName(v4), target, msgText(prep)))
+			key := fmt.Sprintf("layout/PtrBack/%d", c.Plen)
+			if net.IP(wire[:]).To4() != nil {
+				// the synthesised address has the IPv4-mapped form ::ffff:a.b.c.d
+				// (all-zero prefix): kept apart from ordinary round-trip failures
+				key += "/v4mapped"
+			}
+			r.violateKey(key, "PtrBack", c, fmt.Sprintf("PTR %s did not map back to %s (CNAME target %q):\n%s", arpaName(wire), inAddrName(v4), target, msgText(prep)))
 		}
 	} else {
 		// an on-the-wire name that is not the embedding of the case's address
